@@ -176,6 +176,9 @@ def rule_composition(chk: Check, model, rid: str, cv: CompiledView):
     ev = SymEval(model)
     r = ev.run_function(fi)
     n_steps = T.mk_ite(T.eq(S("max_steps"), T.NONE, numeric=False), S("self.max_steps"), S("max_steps"))
+    # the default is the graph's own max_steps property (the evaluator may show it by name or by value)
+    prop = SymEval(model).run_function(model.func("graph.Graph.max_steps")).ret
+    n_steps_v = T.mk_ite(T.eq(S("max_steps"), T.NONE, numeric=False), prop, S("max_steps"))
     init = None
     for kind, nm in (("fori", "jax.lax.fori_loop"), ("scan", "jax.lax.scan")):
         calls = [e for e in r.events if e.kind == "call" and e.name == nm]
@@ -188,14 +191,14 @@ def rule_composition(chk: Check, model, rid: str, cv: CompiledView):
         ok = len(runs) == 1 and loop and runs[0].args == (loop[0].env_in["carry"],) and flow.equivalent(runs[0].guard, c.guard)
         chk.add(rid, f"rollout:{kind}: one run() per iteration on the carry", bool(ok), f"the {kind} body must call self.run(carry) exactly once per iteration", chk.loc(fi, c.node))
         if kind == "fori":
-            ok = len(c.args) == 4 and T.const_value(c.args[0]) == 0 and c.args[1] == n_steps
+            ok = len(c.args) == 4 and T.const_value(c.args[0]) == 0 and c.args[1] in (n_steps, n_steps_v)
             chk.add(rid, "rollout:fori bounds", ok, f"fori_loop bounds are ({T.show(c.args[0])[:60]}, {T.show(c.args[1])[:80]}), expected (0, max_steps): max_steps counts run() calls", chk.loc(fi, c.node))
             init = c.args[3] if len(c.args) == 4 else None
             res = loop[0].env_out.get("result") if loop else None
             chk.add(rid, "rollout:fori carries the run result", bool(runs) and res == runs[0].term, "the loop body must return the result of run()", chk.loc(fi, c.node))
         else:
             xs = c.args[2] if len(c.args) > 2 else dict(c.kwargs).get("xs", T.NONE)
-            ok = xs == T.mk_call("jax.numpy.arange", [n_steps])
+            ok = xs in (T.mk_call("jax.numpy.arange", [n_steps]), T.mk_call("jax.numpy.arange", [n_steps_v]))
             chk.add(rid, "rollout:scan length", ok, f"scan runs over {T.show(xs)[:100]}, expected jnp.arange(max_steps)", chk.loc(fi, c.node))
             res = loop[0].env_out.get("result") if loop else None
             ok = bool(runs) and res == ("tuple", (runs[0].term, runs[0].term))
